@@ -124,17 +124,23 @@ EditPRef ==
     /\ Discard(DOMAIN inst)
     /\ UNCHANGED <<pf, nextid, handles>>
 
-\* reference of the child C, or a model-level reference, changed: the dynamic
-\* cells that can see it drop their values; the instances survive
+\* reference of the child C created / deleted / changed: UserSpaceImpl.on_create_ref and
+\* on_del_ref discard the root instances that replicate C (clear_subs_rootitems; repaired
+\* behaviour, fix: 78110ff -- before, the instances survived with C's old names)
+EditCRef ==
+    /\ Idle
+    /\ Rec([op |-> "edit_ref", m |-> "Crefs"])
+    /\ ver' = [ver EXCEPT !["Crefs"] = @ + 1]
+    /\ Discard(DOMAIN inst)
+    /\ UNCHANGED <<pf, nextid, handles>>
+
+\* a model-level reference changed: the dynamic cells drop their values; the instances survive
 EditOtherRef(m) ==
-    /\ Idle /\ m \in {"Crefs", "gref"}
+    /\ Idle /\ m = "gref"
     /\ Rec([op |-> "edit_ref", m |-> m])
     /\ ver' = [ver EXCEPT ![m] = @ + 1]
-    /\ inst' = [k \in DOMAIN inst |->
-                  [inst[k] EXCEPT !.vals =
-                      IF m = "gref" THEN <<>>
-                      ELSE [x \in DOMAIN @ \ {"C"} |-> @[x]]]]
-    /\ IF m = "gref" THEN callers' = {} ELSE UNCHANGED callers
+    /\ inst' = [k \in DOMAIN inst |-> [inst[k] EXCEPT !.vals = <<>>]]
+    /\ callers' = {}
     /\ UNCHANGED <<pf, nextid, cache, handles>>
 
 SetPf(n) ==
@@ -159,7 +165,8 @@ Next ==
     \/ \E k \in DOMAIN inst : DelItem(k)
     \/ \E m \in {"Pcells", "Ccells"} : EditCells(m)
     \/ EditPRef
-    \/ \E m \in {"Crefs", "gref"} : EditOtherRef(m)
+    \/ EditCRef
+    \/ EditOtherRef("gref")
     \/ \E n \in 0..2 : SetPf(n)
 
 Spec == Init /\ [][Next]_vars
